@@ -13,8 +13,12 @@ are stated) computes:
 * `BrotliStoreHuffmanTreeOfHuffmanTreeToBitMask`: whenever the model returns, the generated list run on
   the same writer returns the same bits (the `codes_to_store` scan, HSKIP, the per-length code).
 
-`BrotliConvertBitDepthsToSymbols` and `BrotliSetDepth` are translated (BV/Gen/FnC17.lean) but not tied
-here: they remain tied by correspondence.
+* `BrotliConvertBitDepthsToSymbols`: whenever the model's `convertBitDepthsToSymbols` (over which C17's canonical-code
+  theorems are stated) returns, the generated function returns the same `bits` array: the length histogram, the
+  first-code loop (the `i32` code against the model's 32-bit pattern, modular arithmetic) and the assignment loop with
+  `BrotliReverseBits`, each by induction.
+
+`BrotliSetDepth` is translated (BV/Gen/FnC17.lean) but not tied here: it remains tied by correspondence.
 -/
 import BV.Gen.FnC17
 import BV.Model.Huffman
@@ -488,10 +492,269 @@ theorem store_huffman_tree_of_huffman_tree_generated (numCodes : Nat) (cl : List
   rw [hL1]
   simp [runOps_bits, k1, hL2]
 
+/-! ## `BrotliConvertBitDepthsToSymbols` -/
+
+theorem u16_inc (c : Nat) : toU 16 (wrapS 32 (((c : Nat) : Int) + (1 : Int))) = (c + 1) % 65536 := by
+  unfold toU wrapS
+  have e1 : (2 : Int) ^ (32 - 1) = 2147483648 := by decide
+  have e2 : (2 : Int) ^ 32 = 4294967296 := by decide
+  have e3 : (2 : Int) ^ 16 = 65536 := by decide
+  rw [e1, e2, e3]
+  omega
+
+theorem code_step32 (codeI : Int) (b : Nat) :
+    toU 32 (wrapS 32 ((wrapS 32 (codeI + ((b : Nat) : Int))) * (2 : Int) ^ (1 % 32))) = ((toU 32 codeI + b) % 4294967296 * 2) % 4294967296 := by
+  unfold toU wrapS
+  have e1 : (2 : Int) ^ (32 - 1) = 2147483648 := by decide
+  have e2 : (2 : Int) ^ 32 = 4294967296 := by decide
+  have e4 : (2 : Int) ^ (1 % 32) = 2 := by decide
+  rw [e1, e2, e4]
+  omega
+
+theorem code_step16 (codeI : Int) (b : Nat) :
+    toU 16 (wrapS 32 ((wrapS 32 (codeI + ((b : Nat) : Int))) * (2 : Int) ^ (1 % 32))) = ((toU 32 codeI + b) % 4294967296 * 2) % 4294967296 % 65536 := by
+  unfold toU wrapS
+  have e1 : (2 : Int) ^ (32 - 1) = 2147483648 := by decide
+  have e2 : (2 : Int) ^ 32 = 4294967296 := by decide
+  have e3 : (2 : Int) ^ 16 = 65536 := by decide
+  have e4 : (2 : Int) ^ (1 % 32) = 2 := by decide
+  rw [e1, e2, e3, e4]
+  omega
+
+theorem take_set_succ {α : Type} : ∀ (l : List α) (i : Nat) (x : α), i < l.length → (l.set i x).take (i + 1) = l.take i ++ [x]
+  | [], _, _, h => by simp at h
+  | a :: l, 0, x, _ => by simp
+  | a :: l, i + 1, x, h => by
+    have := take_set_succ l i x (by simpa using h)
+    simp [this]
+
+theorem drop_take_succ (l : List Nat) (i n : Nat) (h : i < l.length) :
+    (l.drop i).take (n + 1) = l[i] :: (l.drop (i + 1)).take n := by
+  rw [List.drop_eq_getElem_cons h]
+  rfl
+
+/-- body of the first generated loop (`bl_count[depth[i]] += 1`) -/
+def cbBody1 (depth : List Nat) : Nat → List Nat → List Nat :=
+  fun i bl_count =>
+    let _rhs : Int := (1 : Int)
+    let ix_1 : Nat := (List.getD depth i 0)
+    let bl_count : List Nat := (List.set bl_count ix_1 (BV.Rs.toU 16 (BV.Rs.wrapS 32 ((((List.getD bl_count ix_1 0) : Nat) : Int) + _rhs))))
+    bl_count
+
+theorem cb_loop1 (depth : List Nat) : ∀ (n i : Nat) (bl r : List Nat), i + n ≤ depth.length →
+    blCountLoop ((depth.drop i).take n) bl = ok r → forRangeAux (cbBody1 depth) n i bl = r := by
+  intro n
+  induction n with
+  | zero => intro i bl r _ h; simp [blCountLoop] at h; simpa [forRangeAux] using h
+  | succ n ih =>
+    intro i bl r hi h
+    have hlt : i < depth.length := by omega
+    rw [drop_take_succ depth i n hlt] at h
+    unfold blCountLoop at h
+    obtain ⟨c, g1, q1⟩ := bind_eq_ok _ _ _ h
+    unfold forRangeAux
+    have e : cbBody1 depth i bl = bl.set depth[i] ((c + 1) % 65536) := by
+      unfold cbBody1
+      simp only [List.getD_eq_getElem?_getD, List.getElem?_eq_getElem hlt, Option.getD_some]
+      have := getAt_ok_getD _ _ _ 0 g1
+      rw [List.getD_eq_getElem?_getD] at this
+      rw [this, u16_inc]
+    rw [e]
+    exact ih (i + 1) _ r (by omega) q1
+
+/-- body of the second generated loop (`code = (code + bl_count[i-1]) << 1; next_code[i] = code as u16`) -/
+def cbBody2 (bl_count : List Nat) : Nat → List Nat × Int → List Nat × Int :=
+  fun i (next_code, code) =>
+    let code : Int := (BV.Rs.wrapS 32 ((BV.Rs.wrapS 32 (code + (((List.getD bl_count ((i + 18446744073709551616 - 1) % 18446744073709551616) 0) : Nat) : Int))) * (2 : Int) ^ (1 % 32)))
+    let next_code : List Nat := (List.set next_code i (BV.Rs.toU 16 code))
+    (next_code, code)
+
+theorem cb_loop2 (bl : List Nat) : ∀ (n i : Nat) (nc : List Nat) (codeI : Int) (r : List Nat), 1 ≤ i → i + n = 16 →
+    nc.length = 16 → i - 1 + n ≤ bl.length →
+    nextCodeLoop ((bl.drop (i - 1)).take n) (toU 32 codeI) = ok r →
+    (forRangeAux (cbBody2 bl) n i (nc, codeI)).1 = nc.take i ++ r := by
+  intro n
+  induction n with
+  | zero =>
+    intro i nc codeI r _ hi hl _ h
+    simp [nextCodeLoop] at h
+    subst h
+    have hi16 : nc.length ≤ i := by omega
+    simp [forRangeAux, List.take_of_length_le hi16]
+  | succ n ih =>
+    intro i nc codeI r h1 hi hl hb h
+    have hlt : i - 1 < bl.length := by omega
+    rw [drop_take_succ bl (i - 1) n hlt] at h
+    unfold nextCodeLoop at h
+    split at h
+    · cases h
+    obtain ⟨rest, g1, q1⟩ := bind_eq_ok _ _ _ h
+    have hr := Out.ok.inj q1
+    unfold forRangeAux
+    have ei : (i + 18446744073709551616 - 1) % 18446744073709551616 = i - 1 := by omega
+    have eb : List.getD bl (i - 1) 0 = bl[i - 1] := by
+      simp [List.getD_eq_getElem?_getD, List.getElem?_eq_getElem hlt]
+    have e : cbBody2 bl i (nc, codeI) =
+        (nc.set i ((((toU 32 codeI + bl[i - 1]) % u32) * 2) % u32 % 65536),
+          BV.Rs.wrapS 32 ((BV.Rs.wrapS 32 (codeI + ((bl[i - 1] : Nat) : Int))) * (2 : Int) ^ (1 % 32))) := by
+      unfold cbBody2
+      simp only [ei, eb, code_step16]
+      rfl
+    rw [e]
+    have e1 : i + 1 - 1 = i - 1 + 1 := by omega
+    have := ih (i + 1) (nc.set i ((((toU 32 codeI + bl[i - 1]) % u32) * 2) % u32 % 65536)) _ rest (by omega) (by omega)
+      (by rw [List.length_set]; exact hl) (by omega) (by rw [e1, code_step32]; exact g1)
+    rw [this, take_set_succ nc i _ (by omega), ← hr]
+    simp
+
+/-- body of the third generated loop -/
+def cbBody3 (depth : List Nat) : Nat → List Nat × List Nat → List Nat × List Nat :=
+  fun i (bits, next_code) =>
+    if ((List.getD depth i 0) != 0) then
+      let arg_2 : Nat := (List.getD depth i 0)
+      let _rhs : Int := (1 : Int)
+      let ix_4 : Nat := (List.getD depth i 0)
+      let _old : Nat := (List.getD next_code ix_4 0)
+      let next_code : List Nat := (List.set next_code ix_4 (BV.Rs.toU 16 (BV.Rs.wrapS 32 ((((List.getD next_code ix_4 0) : Nat) : Int) + _rhs))))
+      let arg_3 : Nat := _old
+      let bits : List Nat := (List.set bits i (BrotliReverseBits arg_2 arg_3))
+      (bits, next_code)
+    else
+      (bits, next_code)
+
+theorem cb_loop3 (depth : List Nat) : ∀ (n i : Nat) (next bits r : List Nat), i + n ≤ depth.length →
+    next.length = 16 → (∀ x ∈ next, x < 65536) →
+    assignLoop ((depth.drop i).take n) i next bits = ok r →
+    (forRangeAux (cbBody3 depth) n i (bits, next)).1 = r := by
+  intro n
+  induction n with
+  | zero => intro i next bits r _ _ _ h; simp [assignLoop] at h; simpa [forRangeAux] using h
+  | succ n ih =>
+    intro i next bits r hi hl hN h
+    have hlt : i < depth.length := by omega
+    rw [drop_take_succ depth i n hlt] at h
+    unfold assignLoop at h
+    unfold forRangeAux
+    have ed : List.getD depth i 0 = depth[i] := by
+      simp [List.getD_eq_getElem?_getD, List.getElem?_eq_getElem hlt]
+    by_cases hd : depth[i] = 0
+    · have g : ((List.getD depth i 0) != 0) = false := by rw [ed]; simp [hd]
+      rw [if_neg (by simpa using hd)] at h
+      have e : cbBody3 depth i (bits, next) = (bits, next) := by
+        unfold cbBody3
+        simp only [g, if_false, Bool.false_eq_true]
+      rw [e]
+      exact ih (i + 1) next bits r (by omega) hl hN h
+    · have g : ((List.getD depth i 0) != 0) = true := by rw [ed, bne_iff_ne]; exact hd
+      rw [if_pos hd] at h
+      obtain ⟨c, g1, q1⟩ := bind_eq_ok _ _ _ h
+      obtain ⟨bits', g2, q2⟩ := bind_eq_ok _ _ _ q1
+      have hc := getAt_ok_getD _ _ _ 0 g1
+      have hd16 : depth[i] < 16 := by
+        unfold getAt at g1
+        cases hq : next[depth[i]]? with
+        | none => simp [hq] at g1
+        | some y =>
+          have := (List.getElem?_eq_some_iff.mp hq).1
+          omega
+      have hcm : c ∈ next := by
+        rw [← hc, List.getD_eq_getElem?_getD, List.getElem?_eq_getElem (by omega)]
+        exact List.getElem_mem _
+      have hc16 : c < 65536 := hN c hcm
+      have e : cbBody3 depth i (bits, next) = (bits', next.set depth[i] ((c + 1) % 65536)) := by
+        unfold cbBody3
+        have g' : (depth[i] != 0) = true := by rw [bne_iff_ne]; exact hd
+        simp only [ed, g', if_true, hc, u16_inc, reverse_bits_generated depth[i] c (by omega) hc16]
+        rw [setAt_ok_set _ _ _ _ g2]
+      rw [e]
+      refine ih (i + 1) _ bits' r (by omega) (by rw [List.length_set]; exact hl) ?_ q2
+      intro x hx
+      rcases List.mem_or_eq_of_mem_set hx with h1 | h1
+      · exact hN x h1
+      · rw [h1]; exact Nat.mod_lt _ (by decide)
+
+theorem convert_unfold (depth : List Nat) (len : Nat) (bits : List Nat) :
+    BrotliConvertBitDepthsToSymbols depth len bits =
+      (forRangeAux (cbBody3 depth) (len - 0) 0
+        (bits, (forRangeAux (cbBody2 (List.set (forRangeAux (cbBody1 depth) (len - 0) 0 (List.replicate 16 0)) 0 0)) (16 - 1) 1
+          (List.set (List.replicate 16 0) 0 0, (0 : Int))).1)).1 := rfl
+
+theorem blCountLoop_length : ∀ (ds bl r : List Nat), blCountLoop ds bl = ok r → r.length = bl.length := by
+  intro ds
+  induction ds with
+  | nil => intro bl r h; simp [blCountLoop] at h; rw [h]
+  | cons d ds ih =>
+    intro bl r h
+    unfold blCountLoop at h
+    obtain ⟨c, _, q1⟩ := bind_eq_ok _ _ _ h
+    rw [ih _ _ q1, List.length_set]
+
+theorem nextCodeLoop_lt : ∀ (bs : List Nat) (code : Nat) (r : List Nat), nextCodeLoop bs code = ok r →
+    r.length = bs.length ∧ ∀ x ∈ r, x < 65536 := by
+  intro bs
+  induction bs with
+  | nil => intro code r h; simp [nextCodeLoop] at h; subst h; simp
+  | cons b bs ih =>
+    intro code r h
+    unfold nextCodeLoop at h
+    split at h
+    · cases h
+    obtain ⟨rest, g1, q1⟩ := bind_eq_ok _ _ _ h
+    have hr := Out.ok.inj q1
+    obtain ⟨h1, h2⟩ := ih _ _ g1
+    rw [← hr]
+    refine ⟨by simp [h1], ?_⟩
+    intro x hx
+    rcases List.mem_cons.mp hx with hx | hx
+    · rw [hx]; exact Nat.mod_lt _ (by decide)
+    · exact h2 x hx
+
+/-- `BrotliConvertBitDepthsToSymbols`: whenever the model returns (it panics when `len` exceeds the depth array, on a depth
+of 16 or more, on an `i32` overflow of `code` and when `bits` is shorter than `len`), the generated function returns the
+model's `bits` array — the three loops (length histogram, first codes, assignment with `BrotliReverseBits`) by induction -/
+theorem convert_bit_depths_to_symbols_generated (depth : List Nat) (len : Nat) (bits r : List Nat)
+    (h : convertBitDepthsToSymbols depth len bits = ok r) :
+    BrotliConvertBitDepthsToSymbols depth len bits = r := by
+  unfold convertBitDepthsToSymbols at h
+  split at h
+  · cases h
+  rename_i hlen
+  have h16 : BV.Gen.MAX_HUFFMAN_BITS = 16 := rfl
+  rw [h16] at h
+  obtain ⟨bl, g1, q1⟩ := bind_eq_ok _ _ _ h
+  obtain ⟨next, g2, q2⟩ := bind_eq_ok _ _ _ q1
+  have hdt : depth.take len = (depth.drop 0).take len := by simp
+  rw [hdt] at g1 q2
+  have hbl : bl.length = 16 := by rw [blCountLoop_length _ _ _ g1]; simp
+  have e1 := cb_loop1 depth len 0 (List.replicate 16 0) bl (by omega) g1
+  obtain ⟨hnl, hnlt⟩ := nextCodeLoop_lt _ _ _ g2
+  have hset : (bl.set 0 0).length = 16 := by rw [List.length_set]; exact hbl
+  have hnl15 : next.length = 15 := by rw [hnl, List.length_take, hset]; rfl
+  have t0 : toU 32 (0 : Int) = 0 := by decide
+  have g2' : nextCodeLoop (((bl.set 0 0).drop (1 - 1)).take 15) (toU 32 (0 : Int)) = ok next := by
+    rw [t0]; simpa using g2
+  have e2 := cb_loop2 (bl.set 0 0) 15 1 (List.set (List.replicate 16 0) 0 0) (0 : Int) next (by omega) (by omega)
+    (by simp) (by rw [hset]; omega) g2'
+  rw [convert_unfold]
+  have l0 : len - 0 = len := by omega
+  rw [l0, e1]
+  have l15 : 16 - 1 = 15 := rfl
+  rw [l15, e2]
+  have e0 : (List.set (List.replicate 16 0) 0 0).take 1 ++ next = 0 :: next := by rfl
+  rw [e0]
+  refine cb_loop3 depth len 0 (0 :: next) bits r (by omega) (by simp [hnl15]) ?_ q2
+  intro x hx
+  rcases List.mem_cons.mp hx with hx | hx
+  · rw [hx]; decide
+  · exact hnlt x hx
+
 example : BrotliReverseBits 5 0b10110 = 0b01101 := by decide +kernel
 example : BrotliReverseBits 16 1 = 32768 := by decide +kernel
 example : (StoreSimpleHuffmanTree [2, 1, 3, 3] [0, 1, 2, 3] 4 2).1 = [1, 0, 2, 3] := by decide +kernel
 example : sortSymbolsOuter [2, 1, 3, 3] 4 4 0 [0, 1, 2, 3] = ok [1, 0, 2, 3] := by decide +kernel
+example : convertBitDepthsToSymbols [2, 1, 3, 3] 4 [0, 0, 0, 0] = ok (BrotliConvertBitDepthsToSymbols [2, 1, 3, 3] 4 [0, 0, 0, 0]) := by
+  decide +kernel
+example : BrotliConvertBitDepthsToSymbols [2, 1, 3, 3] 4 [0, 0, 0, 0] = [1, 0, 3, 7] := by decide +kernel
 /-- non-vacuity of the "whenever the model returns" hypotheses -/
 example : ∃ w', storeSimpleHuffmanTree [2, 1, 3, 3] [0, 1, 2, 3] 4 2 [] = ok w' ∧ w'.length = 13 := ⟨_, rfl, by decide +kernel⟩
 example : ∃ w', storeHuffmanTreeOfHuffmanTreeToBitMask 2 [0, 0, 0, 1, 1, 0, 0, 0, 0, 0, 0, 0, 0, 0, 0, 0, 0, 0] [] = ok w' ∧ w'.length = 10 :=
